@@ -902,6 +902,14 @@ def run(ctx):
                 dist['reported_codes'][im['D'][0]['msg']] = dist['reported_codes'].get(im['D'][0]['msg'], 0) + 1
         else:
             ctx.count(text(g), False)
+        # valid => every ring has non-zero area (the unproved half of C05_ring_area_partial, checked on every valid polygon drawn)
+        if m and m['valid'][0] and g[0] in ('PG', 'MPG'):
+            for poly in ([g[1]] if g[0] == 'PG' else g[1]):
+                for r in poly:
+                    if r:
+                        dist['valid_rings_area_checked'] = dist.get('valid_rings_area_checked', 0) + 1
+                        if ring_area2(r) == 0:
+                            bad.append(('model-area', 'the specification calls this polygon valid although ring %s has zero area' % (r,)))
         # invariance on the library
         if 'parent' in c and im and ims[c['parent']]:
             p = ims[c['parent']]
